@@ -258,7 +258,7 @@ def main(argv=None):
             pass
     print(
         f"{prop} {tier} seed={seed}: cases={len(results)} distinct_nontrivial={len(shapes)} clause_evals={total_evals} "
-        f"violating_signatures={len(violations)} known={len(known_hits)} wall={wall}s"
+        f"violating_signatures={len(violations)} known={len(known_hits)} inconclusive_reasons={len(inconclusive)} wall={wall}s"
     )
     if violations:
         return 1
